@@ -61,7 +61,7 @@ def ensure_unique_labels(
     for idx in range(segmentation.shape[0]):
         frame = segmentation[idx]
         frame[frame != 0] += curr_max
-        curr_max = int(np.max(frame))
+        curr_max = max(curr_max, int(np.max(frame)))
         segmentation[idx] = frame
     if multiseg:
         segmentation = segmentation.reshape(orig_shape)
